@@ -6,8 +6,9 @@ import (
 	"crypto/sha256"
 	"encoding/hex"
 	"encoding/json"
-	"regexp"
 	"fmt"
+	"os"
+	"regexp"
 	"sort"
 	"strconv"
 	"strings"
@@ -91,6 +92,7 @@ type PState struct {
 // UserAction is a scenario-supplied transition (a user transaction or a keeper-level send).
 type UserAction struct {
 	Label string
+	On    string // chain it runs on (for before/after observation)
 	// Run executes on the mounted world and returns the chain it ran on, the result and whether it counts as
 	// executed (for the Max bound). Events of successful results are scanned for packets.
 	Run func(w *world.World) (on *world.Chain, res world.TxRes)
@@ -103,6 +105,8 @@ type PktModel struct {
 	Props     map[string]bool
 	WorldOpts world.WorldOpts
 	Setup     func(w *world.World)
+	// InitGhost seeds scenario ghost facts after Setup.
+	InitGhost func(w *world.World, g *Ghost)
 	// UserActions lists scenario transitions enabled in the mounted state.
 	UserActions func(m *PktModel, w *world.World, g Ghost) []UserAction
 	// Cleans enables clean / recv-clean transitions with N up to MaxCleanSeq.
@@ -116,7 +120,8 @@ type PktModel struct {
 	StateCheck func(m *PktModel, w *world.World, st PState) []explore.Finding
 	// StepCheck lets a property judge a transition. before/after are dumps of the touched chain.
 	StepCheck func(m *PktModel, w *world.World, ev *StepEvent) []explore.Finding
-	// ExtraStores are dumped into the key in addition to TokenStores.
+	// Observe, if set, is evaluated on the touched chain before and after every transition (token holdings).
+	Observe    func(c *world.Chain) any
 	KeyClients bool // include clients/ in the key
 
 	base *world.World // world built from genesis (worker 0 uses it directly)
@@ -137,6 +142,8 @@ type StepEvent struct {
 	After   []world.KV
 	GBefore Ghost
 	GAfter  *Ghost
+	// ObsBefore/ObsAfter are Observe(Chain) before and after.
+	ObsBefore, ObsAfter any
 }
 
 type pktWorker struct {
@@ -152,7 +159,11 @@ func (m *PktModel) NewWorker() any {
 		if m.Setup != nil {
 			m.Setup(m.base)
 		}
-		m.init = PState{W: m.base.Freeze(), G: newGhost()}
+		g := newGhost()
+		if m.InitGhost != nil {
+			m.InitGhost(m.base, &g)
+		}
+		m.init = PState{W: m.base.Freeze(), G: g}
 		return &pktWorker{w: m.base}
 	}
 	return &pktWorker{w: m.base.Shadow()}
@@ -327,8 +338,20 @@ func (m *PktModel) Expand(wk any, state any, depth int, withSucc bool) ([]explor
 		w.Mount(st.W)
 		g := st.G.clone()
 		ev := &StepEvent{Label: ua.Label, Kind: "user", GBefore: st.G, GAfter: &g}
+		if ua.On != "" {
+			ev.Before = w.C(ua.On).DumpStores(TokenStores...)
+			if m.Observe != nil {
+				ev.ObsBefore = m.Observe(w.C(ua.On))
+			}
+		}
 		on, res := ua.Run(w)
 		ev.Chain, ev.Res = on, res
+		if ua.On != "" {
+			ev.After = on.DumpStores(TokenStores...)
+			if m.Observe != nil {
+				ev.ObsAfter = m.Observe(on)
+			}
+		}
 		if res.OK() {
 			g.Sends[ua.Label]++
 			m.absorb(&g, on, ua.Label, res.Events)
@@ -341,6 +364,9 @@ func (m *PktModel) Expand(wk any, state any, depth int, withSucc bool) ([]explor
 		at := w.C(ra.at)
 		ev := &StepEvent{Label: ra.label, Kind: ra.kind, Chain: at, Pkt: ra.pkt, Clean: ra.clean, Ack: ra.ack, GBefore: st.G, GAfter: &g}
 		ev.Before = at.DumpStores(TokenStores...)
+		if m.Observe != nil {
+			ev.ObsBefore = m.Observe(at)
+		}
 		switch ra.kind {
 		case "recv":
 			ev.Res, ev.Err = w.RelayRecv(ra.pkt, at)
@@ -373,6 +399,9 @@ func (m *PktModel) Expand(wk any, state any, depth int, withSucc bool) ([]explor
 			}
 		}
 		ev.After = at.DumpStores(TokenStores...)
+		if m.Observe != nil {
+			ev.ObsAfter = m.Observe(at)
+		}
 		succs = append(succs, m.finish(w, st, ev, &g, counters))
 	}
 	return succs, sf, counters
@@ -427,13 +456,20 @@ func heightPlus(h clienttypes.Height, d int64) clienttypes.Height {
 	return clienttypes.NewHeight(h.RevisionNumber, uint64(int64(h.RevisionHeight)+d))
 }
 
-// proofFrom queries a genuine proof of key on chain c at its latest height.
-func proofFrom(c *world.Chain, key []byte) ([]byte, clienttypes.Height) {
-	bz, h, err := c.Proof(key, c.Height())
-	if err != nil {
-		return []byte("unavailable"), clienttypes.NewHeight(0, uint64(c.Height()))
+// proofFrom queries a genuine proof of key on chain c at the newest height that chain at's client of c knows
+// (c's own newest height if at has no such client).
+func proofFrom(w *world.World, at string, c *world.Chain, key []byte) ([]byte, clienttypes.Height) {
+	h := c.Height()
+	if w.Idx(at) >= 0 && at != c.Name {
+		if lh, ok := w.ClientLatest(w.C(at), c); ok {
+			h = int64(lh.RevisionHeight)
+		}
 	}
-	return bz, h
+	bz, ph, err := c.Proof(key, h)
+	if err != nil {
+		return []byte("unavailable"), clienttypes.NewHeight(0, uint64(h))
+	}
+	return bz, ph
 }
 
 func thirdChain(w *world.World, not ...string) string {
@@ -486,6 +522,25 @@ func legitAck(w *world.World, p packettypes.Packet, ack []byte, at string, proof
 	return ok && bytes.Equal(h, sha(ack))
 }
 
+// roleSuffix says where an altered packet was accepted: the role of chain at in the ORIGINAL packet's route, and for
+// port edits the port it was redirected to.
+func roleSuffix(orig, q packettypes.Packet, at string) string {
+	role := "third-chain"
+	switch at {
+	case orig.SourceChain:
+		role = "source"
+	case orig.DestinationChain:
+		role = "destination"
+	case orig.RelayChain:
+		role = "relay-chain"
+	}
+	s := "@" + role
+	if orig.Port != q.Port {
+		s += ":" + orig.Port + "->" + q.Port
+	}
+	return s
+}
+
 // recvProbes builds the receive-side probe menu for packet p on chain at.
 func (m *PktModel) recvProbes(w *world.World, g Ghost, p packettypes.Packet, at string) []Probe {
 	var out []Probe
@@ -497,7 +552,7 @@ func (m *PktModel) recvProbes(w *world.World, g Ghost, p packettypes.Packet, at 
 		if w.Idx(proofChain) < 0 {
 			return
 		}
-		proof, ph := proofFrom(w.C(proofChain), key)
+		proof, ph := proofFrom(w, at, w.C(proofChain), key)
 		fresh := dh == 0 && mangle == nil
 		if mangle != nil {
 			proof = mangle(proof)
@@ -523,7 +578,7 @@ func (m *PktModel) recvProbes(w *world.World, g Ghost, p packettypes.Packet, at 
 					alt = "relay-replaced"
 				}
 			}
-			pr.MustFail, pr.Signature = "C13", "recv-accepted-with-altered-"+alt
+			pr.MustFail, pr.Signature = "C13", "recv-accepted-with-altered-"+alt+roleSuffix(orig.P, q, at)
 		case g.Recv[pid(q)+"@"+at] > 0 || w.C(at).CleanPoint(q.SourceChain, q.DestinationChain) >= q.Sequence:
 			pr.MustFail, pr.Signature = "C02", "recv-replay-accepted:"+label
 		default:
@@ -644,7 +699,7 @@ func (m *PktModel) ackProbes(w *world.World, g Ghost, p packettypes.Packet, at s
 		if w.Idx(proofChain) < 0 {
 			return
 		}
-		proof, ph := proofFrom(w.C(proofChain), key)
+		proof, ph := proofFrom(w, at, w.C(proofChain), key)
 		fresh := dh == 0 && mangle == nil
 		if mangle != nil {
 			proof = mangle(proof)
@@ -669,7 +724,7 @@ func (m *PktModel) ackProbes(w *world.World, g Ghost, p packettypes.Packet, at s
 					alt = "relay-replaced"
 				}
 			}
-			pr.MustFail, pr.Signature = "C13", "ack-accepted-with-altered-"+alt
+			pr.MustFail, pr.Signature = "C13", "ack-accepted-with-altered-"+alt+roleSuffix(orig.P, q, at)
 		case g.AckOK[pid(q)+"@"+at] > 0:
 			pr.MustFail, pr.Signature = "C03", "ack-processed-twice:"+label
 		default:
@@ -771,6 +826,9 @@ func (m *PktModel) runProbes(w *world.World, st PState, counters map[string]int)
 		case "try":
 			_, err := w.Try(c, pr.Msg)
 			accepted = err == nil
+			if dbg := os.Getenv("VERIF_DEBUG"); dbg != "" && strings.Contains(pr.Label, dbg) && err != nil {
+				fmt.Fprintf(os.Stderr, "DEBUG probe %s err=%v\n", pr.Label, err)
+			}
 			if err != nil {
 				counters["probe-rejected:"+errClass(err.Error())]++
 			}
@@ -789,6 +847,9 @@ func (m *PktModel) runProbes(w *world.World, st PState, counters map[string]int)
 			w.Mount(base)
 		}
 		counters["probes"]++
+		if dbg := os.Getenv("VERIF_DEBUG"); dbg != "" && strings.Contains(pr.Label, dbg) {
+			fmt.Fprintf(os.Stderr, "DEBUG probe %s accepted=%v\n", pr.Label, accepted)
+		}
 		if accepted {
 			counters["probes-accepted"]++
 			fs = append(fs, explore.Finding{Property: pr.MustFail, Signature: pr.Signature,
